@@ -1412,6 +1412,15 @@ def render_dictany() -> str:
                   and isinstance(m, ast.AsyncFunctionDef) == meth.endswith("_async"))
             term = DTr("val", attr).block(m.body) if ok else '[.unsupported "not found / signature"]'
             lines += [f"def {name}{suffix} : List DStmt :=", f"  {term}", ""]
+    # their `__init__`s (where the schema is derived from the class and the per-key triples are precomputed), pinned text
+    inits = []
+    for fn, cls in (("dataclasses.py", "DataclassValidator"), ("namedtuple.py", "NamedTupleValidator"),
+                    ("typeddict.py", "TypedDictValidator")):
+        mi = _find_method(fn, cls, "__init__")
+        inits.append(f"{cls}.__init__: " + (" ; ".join(ast.unparse(b).replace("\n", " ") for b in mi.body
+                                                        if not (isinstance(b, ast.Expr) and isinstance(b.value, ast.Constant)))
+                                             if mi is not None else "<not found>"))
+    lines += ["def classInits : List String := [" + ", ".join(lstr(x) for x in inits) + "]", ""]
     m = _find_function("dataclasses.py", "_dataclass_instance_to_dict")
     lines += ["def instanceToDict : String := " + lstr(" ; ".join(ast.unparse(b).replace("\n", " ") for b in m.body) if m else "<not found>"), ""]
     lines += ["end Koda.Src", ""]
